@@ -88,8 +88,40 @@ type World struct {
 	Specs    map[int]*FuncSpec
 	GenCalls int
 	MaxExecs int                  // runaway guard
+	// retained: for functions taking a pointer to their parameter struct, the
+	// pointer each execution received, with what was observed through it at
+	// that time. A callee may keep such a pointer (a constructor storing its
+	// *Config); what it points to must not change after the call returned.
+	retained []retainedArg
 	BodyHook func(fs *FuncSpec)   // optional: called at the start of every body (outside the lock)
 	OpTagOf  func() (gid, op int) // optional: goroutine/op attribution
+}
+
+type retainedArg struct {
+	fn, exec int
+	ptr      reflect.Value
+	labels   []Label
+	seen     []Obs
+}
+
+// RetainedMismatch re-reads every retained parameter struct and reports the
+// first one whose contents differ from what its execution observed.
+func (w *World) RetainedMismatch() string {
+	w.mu.Lock()
+	defer w.mu.Unlock()
+	for _, r := range w.retained {
+		if r.ptr.IsNil() {
+			continue
+		}
+		sv := r.ptr.Elem()
+		for i := range r.labels {
+			now := Observe(sv.Field(i + 1))
+			if now != r.seen[i] {
+				return fmt.Sprintf("the parameter struct execution #%d of f%d received by pointer was modified after that call returned: parameter %s held #%d, now holds #%d", r.exec, r.fn, r.labels[i], r.seen[i].Tok, now.Tok)
+			}
+		}
+	}
+	return ""
 }
 
 // RunawayPanic is the panic value raised when a case executes more bodies than
@@ -316,6 +348,18 @@ func (w *World) MakeGoFunc(fs *FuncSpec) interface{} {
 	fn := reflect.MakeFunc(ft, func(args []reflect.Value) []reflect.Value {
 		got := decodeSide(fs.In, fs.InForm, args)
 		vals, err := w.enter(fs, got)
+		if fs.InForm == FormPtr && len(args) == 1 && !args[0].IsNil() {
+			r := retainedArg{fn: fs.ID, ptr: args[0], labels: fs.In}
+			for i := range fs.In {
+				r.seen = append(r.seen, Observe(got[i]))
+			}
+			w.mu.Lock()
+			r.exec = w.Execs[fs.ID]
+			if len(w.retained) < 256 {
+				w.retained = append(w.retained, r)
+			}
+			w.mu.Unlock()
+		}
 		// interface-typed slots: Set/assign handles concrete -> interface.
 		var res []reflect.Value
 		if len(fs.Out) > 0 || fs.OutForm != FormPos {
